@@ -15,6 +15,7 @@ import Proofs.CompileMain
 import Proofs.SchemaBuild
 import Proofs.SchemaBuildLive
 import Proofs.Placement
+import Proofs.SpecParse
 import Props.C15
 namespace PM.C06
 open PM
@@ -62,7 +63,7 @@ example : equivCheck #[⟨false, [(1, 1)]⟩, ⟨true, []⟩] [0, 1] (RE.plus (R
   `Expr.wf`: no *empty* `choice`/`seq` list — the parser never builds one (`compile` raises `IndexError` on an
   empty `seq`, and an empty `choice` compiles to an automaton that accepts nothing, see the `example` below);
   the harness checks `wf` on every AST the model's parser produces and that `Expr.toRE` of it is the
-  expression `specParse` reads.
+  expression `specParse` reads (both are theorems as well: `parseC_wf`, `parse_agrees` below).
 
   History: with the code as first pinned, these theorems needed a second hypothesis (no `{0,}` fragment
   compiled on a shared entry node): `nfa()` put the loop of `x{0,}` on the entry node, so `(b | a{0,})`
@@ -359,5 +360,135 @@ example : (match buildSchema { exSpec with nodes := exSpec.nodes ++ [{ name := "
     | .error e => some e | .ok _ => none) = some .deadEnd := by decide +kernel
 /-- the malformed ones are not `WellFormedContent` for the stated reason: an unclosed group -/
 example : ¬ WellFormedContent (exWith "(p") 0 (by decide) := fun h => absurd h.parens (by decide)
+
+/-! ### the specification reader and the code's parser read every expression alike
+
+  `specParse` (`PM/Regex.lean`) is the specification of "the expression read as a regular expression": a short
+  recursive descent over the documented grammar that builds the `RE` directly (`RE.alt`, `RE.seq`, `RE.plus`,
+  `RE.opt`, `RE.range`, group members in schema order, the inline/block rule), written independently of the code.
+  `parseC` (`PM/Compile.lean`) models the code's parser (`TokenStream`, `parse_expr*`, `resolve_name`) and yields the
+  code's AST.  Both start from the same token list (`tokenize`: runs of word characters, single other characters,
+  `str.isspace()` characters dropped).
+
+  The two differ in one point only: the counts of `{…}`.  The documented grammar has plain decimal numbers; the code
+  hands the token to `int()`, which also reads `1_0` as 10.  `PlainNumbers s` (decidable) says that every token after a
+  `{` or a `,` that starts with a digit consists of ASCII digits only; under it the two readers return the same regular
+  expression (syntactically) or refuse for the same documented reason.  Without it the specification refuses with a
+  syntax error where the code may accept (`specParse_or`; the `example` below) — a leniency of the code on
+  expressions the grammar does not have, not a violation of C06, which speaks about the expressions a schema may
+  declare. -/
+
+open PM.SpecParse
+
+/-- the recursion allowance in the definition of `specParse` never decides: `sExpr` (its `expr` function) does not
+    run out of it on any token list -/
+theorem specParse_allowance (table : List NameInfo) (toks : List String) :
+    sExpr table (4 * toks.length + 4) { toks := toks } ≠ none := sExpr_allowance table toks
+
+/-- **the two readers agree**: for every node-type table and every string whose counts are plain numbers, the
+    specification reads a regular expression `r` exactly when the code's parser accepts and its AST, read as a
+    regular expression, is `r` (the same expression, not only the same language); and it refuses for one of the three
+    documented reasons exactly when the code's parser refuses for that reason (`CErr.toPErr`: unknown name, mixing,
+    and every other way of dying — `SyntaxError`, running off the tokens, `int()` — is a syntax error) -/
+theorem parse_agrees (table : List NameInfo) (s : String) (hp : PlainNumbers s) :
+    (∀ r, specParse table s = .ok r ↔ ∃ oe, parseC table s = .ok oe ∧ contentRE oe = r) ∧
+    (∀ err, specParse table s = .error err ↔ ∃ ce, parseC table s = .error ce ∧ ce.toPErr = err) := by
+  rw [specParse_eq table s hp]
+  cases parseC table s with
+  | error ce => simp [codeReading]
+  | ok oe => simp [codeReading]
+
+/-- … in particular the same language -/
+theorem parse_agrees_lang (table : List NameInfo) (s : String) (hp : PlainNumbers s) (r : RE)
+    (h : specParse table s = .ok r) : ∃ oe, parseC table s = .ok oe ∧ (contentRE oe).lang = r.lang := by
+  obtain ⟨oe, h1, h2⟩ := ((parse_agrees table s hp).1 r).1 h
+  exact ⟨oe, h1, by rw [h2]⟩
+
+/-- without the side condition: the readers agree, or the specification refuses (syntax error) an expression with a
+    count that is no plain number -/
+theorem parse_agrees_or (table : List NameInfo) (s : String) :
+    specParse table s = codeReading (parseC table s) ∨ (specParse table s = .error .syntax ∧ ¬ PlainNumbers s) := by
+  rcases specParse_or table s with h | ⟨h, hp⟩
+  · exact Or.inl h
+  · exact Or.inr ⟨h, by rw [PlainNumbers, hp]; simp⟩
+
+/-- so whatever the specification accepts, the code's parser accepts with the same expression -/
+theorem specParse_ok_parseC (table : List NameInfo) (s : String) (r : RE) (h : specParse table s = .ok r) :
+    ∃ oe, parseC table s = .ok oe ∧ contentRE oe = r := by
+  rcases parse_agrees_or table s with h' | ⟨h', _⟩
+  · rw [h] at h'
+    cases hp : parseC table s with
+    | error ce => rw [hp] at h'; cases h'
+    | ok oe =>
+      rw [hp] at h'
+      simp only [codeReading, Except.ok.injEq] at h'
+      exact ⟨oe, rfl, h'.symm⟩
+  · rw [h] at h'; cases h'
+
+private def exTable : List NameInfo := [⟨"a", ["g"], false⟩, ⟨"b", ["g"], false⟩, ⟨"text", [], true⟩]
+
+/-- the side condition holds for the expressions of the grammar … -/
+example : PlainNumbers "(a | b){2,10} g* a{3}" := by decide +kernel
+/-- … the readers agree there (here checked by evaluation, groups expanded in schema order) … -/
+example : specParse exTable "(a | b){2,3} g*" =
+    .ok (RE.seq (RE.range (RE.alt (RE.sym 0) (RE.sym 1)) 2 (some 3)) (RE.star (RE.alt (RE.sym 0) (RE.sym 1)))) := by
+  decide +kernel
+/-- … and the three documented refusals -/
+example : specParse exTable "a{2" = .error .syntax ∧ specParse exTable "a nosuch" = .error .unknownName ∧
+    specParse exTable "a text" = .error .mixed := by decide +kernel
+/-- **the code is more lenient than the grammar**: `a{1_0}` is no expression of the documented grammar (the
+    specification refuses it, `PlainNumbers` fails), the code's parser reads it as `a{10}` -/
+example : ¬ PlainNumbers "a{1_0}" ∧ specParse exTable "a{1_0}" = .error .syntax ∧
+    codeReading (parseC exTable "a{1_0}") = specParse exTable "a{10}" ∧
+    specParse exTable "a{10}" = .ok (RE.range (RE.sym 0) 10 (some 10)) := by decide +kernel
+
+/-- **the compiler, in terms of the specification reader alone**: an expression the specification reads as `r` is
+    accepted by the code's parser, and the automaton compiled from it accepts a sequence of child types exactly when
+    `r` matches it, and keeps a match state alive after a prefix exactly when the prefix can be extended to a match of
+    `r` -/
+theorem compile_spec (table : List NameInfo) (s : String) (r : RE) (h : specParse table s = .ok r) :
+    ∃ oe, parseC table s = .ok oe ∧
+      (∀ w, (compileDfa oe).accepts w = true ↔ w ∈ r.lang) ∧
+      (∀ w, ((compileDfa oe).run 0 w).isSome = true ↔ ∃ v, w ++ v ∈ r.lang) := by
+  obtain ⟨oe, hp, rfl⟩ := specParse_ok_parseC table s r h
+  refine ⟨oe, hp, ?_⟩
+  cases oe with
+  | none => exact ⟨fun w => (compile_empty w).1, fun w => (compile_empty w).2⟩
+  | some e =>
+    have hwf := (parseC_wf hp).1
+    exact ⟨fun w => compile_accepts e hwf w, fun w => compile_live e hwf w⟩
+
+/-- **C06 for the schema constructor, in terms of the specification reader alone**: in a schema the constructor
+    accepts, the content expression of every node type (counts plain numbers) is an expression of the grammar — the
+    specification reads it, as `r` —, the automaton the schema holds for the type accepts a sequence of child types
+    exactly when `r` matches it, keeps a match state alive after a prefix exactly when the prefix can be extended to a
+    match of `r`, and every such prefix can be completed by generatable node types alone -/
+theorem buildSchema_content_spec {spec : Spec} {S : Schema} (h : buildSchema spec = .ok S)
+    (i : Nat) (hi : i < spec.nodes.length) (hp : PlainNumbers spec.nodes[i].content) :
+    ∃ r, specParse (nameTable spec) spec.nodes[i].content = .ok r ∧
+      (∀ w, (S.dfa i).accepts w = true ↔ w ∈ r.lang) ∧
+      (∀ w, ((S.dfa i).run 0 w).isSome = true ↔ ∃ v, w ++ v ∈ r.lang) ∧
+      (∀ w, (∃ v, w ++ v ∈ r.lang) → ∃ v, (∀ t, t ∈ v → S.generatable t = true) ∧ w ++ v ∈ r.lang) := by
+  obtain ⟨oe, h1, _, h3, h4⟩ := buildSchema_content_correct h i hi
+  refine ⟨contentRE oe, ?_, h3, h4, fun w hw => buildSchema_completable h i hi oe h1 w hw⟩
+  rw [specParse_eq _ _ hp, h1]
+  rfl
+
+/-- … and the other way round: a spec with a node type whose content expression the specification refuses (for any
+    of its three reasons) is refused by the constructor -/
+theorem buildSchema_rejects_spec (spec : Spec) (i : Nat) (hi : i < spec.nodes.length)
+    (hp : PlainNumbers spec.nodes[i].content) (err : PErr)
+    (hbad : specParse (nameTable spec) spec.nodes[i].content = .error err) : ∃ e, buildSchema spec = .error e := by
+  cases hb : buildSchema spec with
+  | error e => exact ⟨e, rfl⟩
+  | ok S =>
+    obtain ⟨r, hr, _⟩ := buildSchema_content_spec hb i hi hp
+    rw [hr] at hbad
+    cases hbad
+
+/-- non-vacuity: the accepted example spec above has plain counts throughout, and the specification reads `doc`'s
+    content as `p p` -/
+example : (∀ i, (hi : i < exSpec.nodes.length) → PlainNumbers exSpec.nodes[i].content) ∧
+    specParse (nameTable exSpec) "p p" = .ok (RE.seq (RE.sym 1) (RE.sym 1)) := by decide +kernel
 
 end PM.C06
